@@ -34,6 +34,10 @@ type EngCase struct {
 	MoveAfterCache bool   `json:"move_after_cache,omitempty"`
 	MissingFile    string `json:"missing_file,omitempty"`
 	Unreadable     string `json:"unreadable,omitempty"`
+	// OtherCtxFirst: one engine value serves all runs of the case, and before them it runs another context
+	// directory that holds other contents under the same file names (c.Program2): what the engine learnt
+	// there must not show in the runs that follow.
+	OtherCtxFirst bool `json:"other_ctx_first,omitempty"`
 	// BadWorkflowKey damages the `workflow:` key of the first loop of the root file ("missing" | "list" |
 	// "number"): direct preparation rejects such a text, and so must the engine API - with an error
 	BadWorkflowKey string `json:"bad_workflow_key,omitempty"`
@@ -123,6 +127,40 @@ func (ec *EngCase) body(c *Case) func(b *harness.BodyCtx) {
 		input, _ := json.Marshal(c.Doc)
 		startDir, _ := os.Getwd()
 		_ = os.MkdirAll(filepath.Join(root, "moved", "ctx"), 0o755)
+		var shared engine.WorkflowEngine
+		if ec.OtherCtxFirst && c.Program2 != nil {
+			dir2 := filepath.Join(root, "ctx2")
+			files2 := map[string]string{"workflow.yaml": c.Program2.YAML()}
+			for k, v := range c.Program2.Files() {
+				files2[k] = v
+			}
+			for name, text := range files2 {
+				full := filepath.Join(dir2, name)
+				if err := os.MkdirAll(filepath.Dir(full), 0o755); err != nil {
+					panic(fmt.Errorf("harness: %w", err))
+				}
+				if err := os.WriteFile(full, []byte(text), 0o644); err != nil {
+					panic(fmt.Errorf("harness: %w", err))
+				}
+			}
+			flow, err := engine.New(cfg)
+			if err != nil {
+				panic(fmt.Errorf("harness: engine.New: %w", err))
+			}
+			shared = flow
+			fc2, err := loadfile.NewFileCacheUsingContext(dir2, map[string]string{"workflow": "workflow.yaml"})
+			if err == nil {
+				err = fc2.LoadContext()
+			}
+			if err == nil {
+				simrt.EnvPoint("env:engine-run-other", false, 0)
+				_, _, _, _ = shared.RunWorkflow(context.Background(), input, fc2, "workflow")
+				b.W.Fired("engine_reused_after_other_context")
+			}
+			if b.Sim.Draining() {
+				return
+			}
+		}
 		for _, how := range []string{"RunWorkflow", "Parse+Run"} {
 			r := engRun{how: how}
 			_ = os.Chdir(startDir)
@@ -138,9 +176,12 @@ func (ec *EngCase) body(c *Case) func(b *harness.BodyCtx) {
 				ec.runs = append(ec.runs, r)
 				continue
 			}
-			flow, err := engine.New(cfg)
-			if err != nil {
-				panic(fmt.Errorf("harness: engine.New: %w", err))
+			flow := shared
+			if flow == nil {
+				flow, err = engine.New(cfg)
+				if err != nil {
+					panic(fmt.Errorf("harness: engine.New: %w", err))
+				}
 			}
 			simrt.EnvPoint("env:engine-run", false, 0)
 			if how == "RunWorkflow" {
@@ -247,7 +288,11 @@ func genEngCase(t *rapid.T) *Case {
 			ec.Unreadable = n
 		}
 	}
-	if len(names) > 0 && ec.MissingFile == "" && ec.Unreadable == "" && rapid.IntRange(0, 9).Draw(t, "bad_workflow_key") == 0 {
+	if len(prog.Subs) > 0 && ec.MissingFile == "" && ec.Unreadable == "" && rapid.IntRange(0, 2).Draw(t, "other_ctx_first") == 0 {
+		ec.OtherCtxFirst = true
+		c.Program2 = otherSubFiles(prog)
+	}
+	if len(names) > 0 && ec.MissingFile == "" && ec.Unreadable == "" && !ec.OtherCtxFirst && rapid.IntRange(0, 9).Draw(t, "bad_workflow_key") == 0 {
 		for _, st := range prog.Steps {
 			if st.Kind == "foreach" {
 				ec.BadWorkflowKey = rapid.SampledFrom([]string{"missing", "list", "number"}).Draw(t, "bad_workflow_key_kind")
